@@ -13,10 +13,31 @@ HINT = {'reserve_x': 10 ** 12, 'reserve_y': 10 ** 12, 'offer': 10 ** 6, 'protoco
         'burn_fee': 0, 'extra_fee0': 10 ** 15, 'extra_fee1': 0, 'max_slippage_atomics': 5 * 10 ** 17}
 
 
+from ..chain import Chain, bank_of
+from .c04 import swap_msg, CONTRACTS
+
+
+class _Res:
+    """what the obligations need from one executed Swap message: the amounts that moved, read off the balances"""
+
+    def __init__(self, ret, pr, bu):
+        self.ret, self.pr, self.bu = ret, pr, bu
+
+
 def _swap(I, pool_id, offer_denom, offer_amt, ask_denom, belief=None, max_slippage=None):
-    return I.try_call('perform_swap', [deps(PM), coin_v(offer_denom, offer_amt), ask_denom, pool_id,
-                                       belief if belief is not None else NONE(),
-                                       max_slippage if max_slippage is not None else NONE()], CR)
+    """one Swap through the PUBLIC execute entry point (trader -> pool manager); returns ('ok', _Res) or ('err', None)"""
+    b = bank_of(I)
+    b.set('trader', offer_denom, simp(b.get('trader', offer_denom) + offer_amt))
+    b.supply[offer_denom] = simp(b.supply.get(offer_denom, 0) + offer_amt)
+    ch = I.world.meta.get('chain') or Chain(I, CONTRACTS)
+    I.world.meta['chain'] = ch
+    pre = b.snapshot()
+    st, _ = ch.execute('trader', PM, swap_msg(ask_denom, pool_id, belief=belief, max_slippage=max_slippage), [coin_v(offer_denom, offer_amt)])
+    if st != 'ok':
+        return 'err', None
+    return 'ok', _Res(simp(b.get('trader', ask_denom) - pre.get('trader', ask_denom)),
+                      simp(b.get('fee_collector', ask_denom) - pre.get('fee_collector', ask_denom)),
+                      simp(pre.supply.get(ask_denom, 0) - b.supply.get(ask_denom, 0)))
 
 
 def _setup_xyk(I, n_extra, decs=(6, 6)):
@@ -25,7 +46,13 @@ def _setup_xyk(I, n_extra, decs=(6, 6)):
     y = I.sym('reserve_y', lo=1, hi=U128)
     fees, shares = sym_fees(I, n_extra)
     pool = pool_info('p1', ['uA', 'uB'], list(decs), [x, y], xyk(), fees)
+    pm_config(I)
     put_pool(I, pool)
+    b = bank_of(I)
+    b.set(PM, 'uA', x)
+    b.set(PM, 'uB', y)
+    b.supply['uA'] = x
+    b.supply['uB'] = y
     return x, y, shares
 
 
@@ -75,36 +102,29 @@ def _ob_k1(n_extra):
         x, y, shares = _setup_xyk(I, n_extra)
         o = I.sym('offer', lo=1, hi=U128)
         tol = I.sym('max_slippage_atomics', hi=U128)
-        st, r = _swap(I, 'p1', 'uA', o, 'uB', max_slippage=Some(tol))
-        if st == 'panic' or is_err(r):
+        st, res = _swap(I, 'p1', 'uA', o, 'uB', max_slippage=Some(tol))
+        if st != 'ok':
             I.outcome('rejected')
             return
         I.outcome('ok')
         I.cover('ok', HINT)
         I.observe('status', 'ok')
         observe_pool(I, 'p1')
-        res = r.f[0]
-        ret = res.get('return_asset').get('amount')
-        sw = res.get('swap_fee_asset').get('amount')
-        pr = res.get('protocol_fee_asset').get('amount')
-        bu = res.get('burn_fee_asset').get('amount')
-        ex = res.get('extra_fees_asset').get('amount')
         pool2 = get_pool(I, 'p1')
         x2, y2 = reserves_of(pool2)
         I.check('offer_added_in_full', smt.Eq(x2, x + o))
-        I.check('ask_reduced_by_outgoing', smt.Eq(y2, y - ret - pr - bu))
+        I.check('ask_reduced_by_outgoing', smt.Eq(y2, y - res.ret - res.pr - res.bu))
         I.check('product_never_decreases', x2 * y2 >= x * y)
-        I.check('gross_output_below_reserve', ret + sw + pr + bu + ex < y)
         I.check('ask_reserve_stays_positive', y2 >= 1)
     return k1
 
 
 for _n in (0, 2):
-    obligation('C03', 'K1.xyk_swap_product_extra%d' % _n, entries=['perform_swap', 'compute_swap', 'compute_fees', 'get_swap_computation',
+    obligation('C03', 'K1.xyk_swap_product_extra%d' % _n, entries=['execute', 'swap::commands::swap', 'perform_swap', 'compute_swap', 'compute_fees', 'get_swap_computation',
                                                                   'get_asset_indexes_in_pool', 'assert_max_slippage', 'PoolFee::is_valid'],
                kind='S', tier='quick',
                statement='constant product: after an executed swap the stored reserves satisfy x\'*y\' >= x*y, offer reserve grew by the full offer, '
-                         'gross output < ask reserve; for every fee configuration accepted by PoolFee::is_valid (%d extra fees)' % _n,
+                         'the ask reserve stays positive; for every fee configuration accepted by PoolFee::is_valid (%d extra fees)' % _n,
                bounds='reserves, offer in [1, 2^128); fee shares full range filtered by the real is_valid; slippage tolerance symbolic',
                covers=['ok'], replay=_replay_k1(_n))(_ob_k1(_n))
 
@@ -118,29 +138,108 @@ def _ob_roundtrip(n_extra):
         o = I.sym('offer', lo=1, hi=U128)
         half = Some(5 * 10 ** 17)
         st, r = _swap(I, 'p1', 'uA', o, 'uB', max_slippage=half)
-        if st == 'panic' or is_err(r):
+        if st != 'ok':
             return
         x1, y1 = reserves_of(get_pool(I, 'p1'))
         I.lemma(x1 * y1 >= x * y, K1_LEMMA)
-        got = r.f[0].get('return_asset').get('amount')
+        got = r.ret
         if I.fork(smt.Eq(got, 0)):
             I.outcome('first_leg_returns_nothing')
             return
+        # the trader swaps back exactly the proceeds (they are already in her balance)
+        b = bank_of(I)
+        b.set('trader', 'uB', simp(b.get('trader', 'uB') - got))
+        b.supply['uB'] = simp(b.supply['uB'] - got)
         st2, r2 = _swap(I, 'p1', 'uB', got, 'uA', max_slippage=half)
-        if st2 == 'panic' or is_err(r2):
+        if st2 != 'ok':
             I.outcome('second_rejected')
             return
         x2, y2 = reserves_of(get_pool(I, 'p1'))
         I.lemma(x2 * y2 >= x1 * y1, K1_LEMMA)
         I.cover('both_ok', HINT)
-        back = r2.f[0].get('return_asset').get('amount')
-        I.check('round_trip_not_profitable', back <= o)
+        I.check('round_trip_not_profitable', r2.ret <= o)
     return r1
 
 
 for _n in (0, 1):
-    obligation('C03', 'R1.same_pool_round_trip_extra%d' % _n, entries=['perform_swap', 'compute_swap'], kind='B', tier='quick',
+    obligation('C03', 'R1.same_pool_round_trip_extra%d' % _n, entries=['execute', 'swap::commands::swap', 'perform_swap', 'compute_swap'], kind='B', tier='quick',
                statement='swap A->B then swap the proceeds B->A on the same pool: final <= initial, for all reserves/offers/fees (incl. zero fees)',
                bounds='reserves, offer in [1, 2^128); %d extra fees; default slippage cap 50%%' % _n, covers=['both_ok'],
                abstractions=['lemma: ' + K1_LEMMA],
-               opts={'check_timeout_ms': 120000})(_ob_roundtrip(_n))
+               opts={'check_timeout_ms': 120000, 'lazy_forks': True})(_ob_roundtrip(_n))
+
+
+# ---------------------------------------------------------------- a route that visits the same pool twice (real pricing kernel)
+
+from .pm import route_msg, swap_op
+
+
+def _replay_revisit(m):
+    from .c02 import _mints
+    fees = (m['protocol_fee'], m['swap_fee'], m['burn_fee'], [])
+    steps = [{'op': 'set_pool', 'pool': pool_json('p1', ['uA', 'uB'], [6, 6], [m['reserve_x'], m['reserve_y']], 'constant_product', fees)}]
+    steps += _mints([('pool_manager', [('uA', m['reserve_x']), ('uB', m['reserve_y'])]), ('trader', [('uA', m['offer'])])])
+    ops = [{'mantra_swap': {'token_in_denom': 'uA', 'token_out_denom': 'uB', 'pool_identifier': 'p1'}},
+           {'mantra_swap': {'token_in_denom': 'uB', 'token_out_denom': 'uA', 'pool_identifier': 'p1'}}]
+    steps.append({'op': 'execute', 'contract': 'pool_manager', 'sender': 'trader', 'funds': [coin_j('uA', m['offer'])],
+                  'msg': {'execute_swap_operations': {'operations': ops, 'max_slippage': '0.5'}}})
+    return {'setup': {}, 'steps': steps}, len(steps) - 1
+
+
+@obligation('C03', 'R2.route_through_the_same_pool_twice', entries=['execute', 'execute_swap_operations', 'perform_swap', 'compute_swap'], kind='R',
+            statement='ExecuteSwapOperations uA -> uB -> uA through ONE pool ends in exactly the state of the two swaps sent one after the other (second hop priced on the '
+                      'reserves the first hop left): same final reserves, same amount back; hence (K1, per swap) the product never decreases at any hop and the round trip '
+                      'is not profitable',
+            bounds='reserves, offer in [1, 2^128); real is_valid fees without extra fees; slippage cap 50%', covers=['both_ok'],
+            abstractions=['lemma: ' + K1_LEMMA], opts={'check_timeout_ms': 120000, 'lazy_forks': True},
+            replay=generic_replay(lambda m: _replay_revisit(m)))
+def r2_revisit(I):
+    # counterexample candidates for a solver that cannot decide the two nested swaps symbolically in time: ordinary pools and trades
+    I.set_probes([dict(reserve_x=rx, reserve_y=ry, offer=of, protocol_fee=pf, swap_fee=sf, burn_fee=bf, max_slippage_atomics=5 * 10 ** 17)
+                  for rx, ry, of, pf, sf, bf in ((10 ** 6, 10 ** 6, 10 ** 5, 5 * 10 ** 15, 10 ** 16, 0), (10 ** 12, 3 * 10 ** 12, 10 ** 9, 10 ** 15, 2 * 10 ** 15, 10 ** 15),
+                                                 (10 ** 9, 10 ** 9, 10 ** 9, 0, 3 * 10 ** 15, 0), (777777, 123456789, 4321, 10 ** 16, 3 * 10 ** 16, 0))])
+    x, y, shares = _setup_xyk(I, 0)
+    o = I.sym('offer', lo=1, hi=U128)
+    half = Some(5 * 10 ** 17)
+    b = bank_of(I)
+    b.set('trader', 'uA', o)
+    b.supply['uA'] = simp(b.supply['uA'] + o)
+    ch = Chain(I, CONTRACTS)
+    I.world.meta['chain'] = ch
+    start = ch.snapshot()
+    # (i) the route
+    pre = b.snapshot()
+    st_r, _ = ch.execute('trader', PM, route_msg([swap_op('uA', 'uB', 'p1'), swap_op('uB', 'uA', 'p1')], max_slippage=half), [coin_v('uA', o)])
+    xr, yr = reserves_of(get_pool(I, 'p1'))
+    back_r = simp(b.get('trader', 'uA') - (pre.get('trader', 'uA') - o))
+    I.observe('status', 'ok' if st_r == 'ok' else 'err')
+    observe_pool(I, 'p1')
+    observe_bank(I, b, [('trader', 'uA'), ('trader', 'uB'), (PM, 'uA'), (PM, 'uB')])
+    ch.restore(start)
+    b = bank_of(I)
+    # (ii) hop by hop
+    pre2 = b.snapshot()
+    st1, _ = ch.execute('trader', PM, swap_msg('uB', 'p1', max_slippage=half), [coin_v('uA', o)])
+    if st1 != 'ok':
+        I.check('route_refused_when_its_first_hop_is', st_r != 'ok')
+        return
+    got = simp(b.get('trader', 'uB') - pre2.get('trader', 'uB'))
+    x1, y1 = reserves_of(get_pool(I, 'p1'))
+    I.lemma(x1 * y1 >= x * y, K1_LEMMA)
+    if I.fork(smt.Eq(got, 0)):
+        I.outcome('first_hop_returns_nothing')
+        return
+    st2, _ = ch.execute('trader', PM, swap_msg('uA', 'p1', max_slippage=half), [coin_v('uB', got)])
+    if st2 != 'ok':
+        I.check('route_refused_when_its_second_hop_is', st_r != 'ok')
+        return
+    x2, y2 = reserves_of(get_pool(I, 'p1'))
+    I.lemma(x2 * y2 >= x1 * y1, K1_LEMMA)
+    back = simp(b.get('trader', 'uA') - (pre2.get('trader', 'uA') - o))
+    I.check('route_executes_when_its_hops_do', st_r == 'ok')
+    if st_r != 'ok':
+        return
+    I.cover('both_ok', HINT)
+    I.check('same_final_reserves_as_hop_by_hop', smt.And(smt.Eq(xr, x2), smt.Eq(yr, y2)))
+    I.check('same_amount_back_as_hop_by_hop', smt.Eq(back_r, back))
+    I.check('round_trip_not_profitable', back_r <= o)
